@@ -83,27 +83,61 @@ func cases(c gen.C08Case) (with, without rescorr.Case) {
 }
 
 // plan is what the property expects of one case, computed from the deviations as generated and the
-// Go dump of the without-run.
+// Go dump of the without-run.  A target is followed through "incarnations": an rpc input / output
+// always exists for the path lookup (an absent one is created empty), so a deviation that names an
+// input / output which an earlier not-supported removed meets a fresh, empty node.
 type plan struct {
-	missing   []string            // deviations without a target (designed, or target removed earlier)
-	order     []string            // targets in first-application order
+	missing   []string // deviations without a target (designed, or target removed earlier)
+	order     []string // incarnation keys in first-application order
+	path      map[string]string
 	stmts     map[string][]gen.DevStmt
-	implicit  map[string]bool     // target is an rpc input/output the base does not write
-	removed   []string            // targets removed by not-supported (unless ignored)
-	unknown   bool                // some deviate statement has an unknown kind
-	notInBase []string            // generator named a target the base dump does not have
-	reqIdx    map[string]int      // target -> index of its spec request
+	start     map[string]rec    // record the incarnation starts from
+	last      map[string]string // path -> key of its last incarnation
+	implicit  map[string]bool   // path is an rpc input/output the base does not write
+	removed   []string          // paths removed by not-supported (unless ignored), in order
+	emptied   map[string]bool   // path was removed at some point (whatever was below it is gone)
+	unknown   bool              // some deviate statement has an unknown kind
+	notInBase []string          // generator named a target the base dump does not have
+	reqIdx    map[string]int    // incarnation key -> index of its spec request
 }
 
 func isKnownKind(k string) bool {
 	return k == "add" || k == "replace" || k == "delete" || k == "not-supported"
 }
 
+func parentPath(p string) string {
+	if i := strings.LastIndexByte(p, '/'); i > 0 {
+		return p[:i]
+	}
+	return ""
+}
+
+// isRpcIO: path is the input / output of an rpc (or action with input/output) of the base.
+func isRpcIO(path string, base map[string]rec) bool {
+	if !(strings.HasSuffix(path, "/input") || strings.HasSuffix(path, "/output")) {
+		return false
+	}
+	pr, ok := base[parentPath(path)]
+	return ok && pr.f["rpc"] == "1"
+}
+
+func implicitRec(path string, base map[string]rec) rec {
+	kind := "Input"
+	if strings.HasSuffix(path, "/output") {
+		kind = "Output"
+	}
+	pr := base[parentPath(path)]
+	return rec{path: path, f: map[string]string{"kind": kind, "dir": "1", "rpc": "0", "cfg": "unset", "mand": "unset", "def": "[]",
+		"units": "-", "key": "-", "la": "-", "type": "-", "ns": pr.f["ns"], "im": pr.f["im"]}}
+}
+
 func makePlan(c gen.C08Case, base map[string]rec) *plan {
-	p := &plan{stmts: map[string][]gen.DevStmt{}, implicit: map[string]bool{}, reqIdx: map[string]int{}}
+	p := &plan{path: map[string]string{}, stmts: map[string][]gen.DevStmt{}, start: map[string]rec{}, last: map[string]string{},
+		implicit: map[string]bool{}, emptied: map[string]bool{}, reqIdx: map[string]int{}}
 	devs := append([]gen.Deviation{}, c.Devs...)
 	// deviating modules are applied in module name order, whatever the load order
 	sort.SliceStable(devs, func(i, j int) bool { return devs[i].Module < devs[j].Module })
+	gone := map[string]bool{} // paths currently removed
 	for _, d := range devs {
 		for _, s := range d.Stmts {
 			if !isKnownKind(s.Kind) {
@@ -114,37 +148,53 @@ func makePlan(c gen.C08Case, base map[string]rec) *plan {
 			p.missing = append(p.missing, d.Arg)
 			continue
 		}
-		if _, ok := base[d.Target]; !ok && !d.Implicit {
+		_, inBase := base[d.Target]
+		if !inBase && !(d.Implicit && isRpcIO(d.Target, base)) {
 			p.notInBase = append(p.notInBase, d.Target)
 			p.missing = append(p.missing, d.Arg)
 			continue
 		}
-		gone := false
-		for _, r := range p.removed {
-			if below(d.Target, r) {
-				gone = true
+		if !inBase {
+			p.implicit[d.Target] = true
+		}
+		// an ancestor (or, unless it is an rpc input/output, the node itself) was removed
+		lost := false
+		for r := range gone {
+			if below(d.Target, r) && !(d.Target == r && isRpcIO(r, base)) {
+				lost = true
 			}
 		}
-		if gone {
+		if lost {
 			p.missing = append(p.missing, d.Arg+" (removed by an earlier not-supported)")
 			continue
 		}
-		if _, ok := p.stmts[d.Target]; !ok {
-			p.order = append(p.order, d.Target)
+		key, ok := p.last[d.Target]
+		if !ok || gone[d.Target] {
+			key = fmt.Sprintf("%s#%d", d.Target, len(p.order))
+			p.order = append(p.order, key)
+			p.path[key] = d.Target
+			p.last[d.Target] = key
+			if r, ok := base[d.Target]; ok && !gone[d.Target] {
+				p.start[key] = r
+			} else {
+				p.start[key] = implicitRec(d.Target, base)
+			}
+			delete(gone, d.Target)
 		}
-		p.implicit[d.Target] = d.Implicit
 		rm := false
 		for _, s := range d.Stmts {
 			if !isKnownKind(s.Kind) {
 				continue // reported when the module is converted; never applied
 			}
-			p.stmts[d.Target] = append(p.stmts[d.Target], s)
+			p.stmts[key] = append(p.stmts[key], s)
 			if s.Kind == "not-supported" && !c.IgnoreNS {
 				rm = true
 			}
 		}
 		if rm {
 			p.removed = append(p.removed, d.Target)
+			p.emptied[d.Target] = true
+			gone[d.Target] = true
 		}
 	}
 	return p
@@ -197,15 +247,6 @@ func specRequest(ignoreNS bool, r rec, stmts []gen.DevStmt, typeTok func(string)
 	return sb.String()
 }
 
-func implicitRec(path string) rec {
-	kind := "Input"
-	if strings.HasSuffix(path, "/output") {
-		kind = "Output"
-	}
-	return rec{path: path, f: map[string]string{"kind": kind, "dir": "1", "rpc": "0", "cfg": "unset", "mand": "unset", "def": "[]",
-		"units": "-", "key": "-", "la": "-", "type": "-"}}
-}
-
 type specAns struct {
 	removed     bool
 	f           map[string]string
@@ -246,6 +287,7 @@ type stats struct {
 	evaluated, clean, reportedAsClaimed, unclaimedReported, unclaimedApplied, baseErr, outside, parse, badTypeCases int64
 	targets, framed                                                                                              int64
 	notInBase                                                                                                    int64
+	baseErrClass                                                                                                 map[string]int
 	combos                                                                                                       map[string]bool
 	distinct                                                                                                     *lib.Distinct
 }
@@ -281,13 +323,9 @@ func evaluate(items []gen.C08Case, f *lib.Flags, res *lib.Result, st *stats, ver
 			}
 			return lib.HexS("?" + name) // only reached when the with-run reports errors (no records to compare)
 		}
-		for _, t := range p.order {
-			r, ok := bases[i][t]
-			if !ok {
-				r = implicitRec(t)
-			}
-			p.reqIdx[t] = len(reqs)
-			reqs = append(reqs, specRequest(it.IgnoreNS, r, p.stmts[t], typeTok))
+		for _, k := range p.order {
+			p.reqIdx[k] = len(reqs)
+			reqs = append(reqs, specRequest(it.IgnoreNS, p.start[k], p.stmts[k], typeTok))
 		}
 	}
 	ans, err := lib.ParBatch(specDrv, reqs, f.Procs)
@@ -325,6 +363,15 @@ func evaluate(items []gen.C08Case, f *lib.Flags, res *lib.Result, st *stats, ver
 			}
 			g := lib.Project(o.Go.Dump, keys, true)
 			m := lib.Project(o.Model, keys, true)
+			if it.BadType {
+				// lib.ErrClass files "deviation has unresolvable type, [… unknown type …]" under the
+				// inner message's class (first needle wins); the model names the outer one
+				for j := range g {
+					if g[j] == "E -:0:0:unknown-type" {
+						g[j] = "E -:0:0:deviate-bad-type"
+					}
+				}
+			}
 			if verbose {
 				fmt.Println([]string{"with:", "without:"}[k])
 				for _, r := range g {
@@ -342,6 +389,9 @@ func evaluate(items []gen.C08Case, f *lib.Flags, res *lib.Result, st *stats, ver
 		_ = modelOK
 		if rescorr.HasErrors(owo.Go.Dump) {
 			st.baseErr++
+			if f := strings.Split(owo.Go.Dump[0], ":"); len(f) > 0 {
+				st.baseErrClass[f[len(f)-1]]++
+			}
 			continue
 		}
 		p := plans[i]
@@ -364,13 +414,13 @@ func evaluate(items []gen.C08Case, f *lib.Flags, res *lib.Result, st *stats, ver
 			}
 			specs[t] = a
 			for _, c := range a.claimed {
-				claimed = append(claimed, t+": "+c)
+				claimed = append(claimed, p.path[t]+": "+c)
 			}
 			if a.unsupported {
-				claimed = append(claimed, t+": delete of a leaf-list default (refused by the library as unsupported)")
+				claimed = append(claimed, p.path[t]+": delete of a leaf-list default (refused by the library as unsupported)")
 			}
 			for _, c := range a.unclaimed {
-				unclaimed = append(unclaimed, t+": "+c)
+				unclaimed = append(unclaimed, p.path[t]+": "+c)
 			}
 		}
 		if bad {
@@ -418,7 +468,7 @@ func evaluate(items []gen.C08Case, f *lib.Flags, res *lib.Result, st *stats, ver
 		for _, m := range it.DevMods {
 			devMod[m] = true
 		}
-		isTarget := func(path string) bool { _, ok := p.stmts[path]; return ok }
+		isTarget := func(path string) bool { _, ok := p.last[path]; return ok }
 		belowRemoved := func(path string) bool {
 			for _, r := range p.removed {
 				if below(path, r) {
@@ -462,7 +512,7 @@ func evaluate(items []gen.C08Case, f *lib.Flags, res *lib.Result, st *stats, ver
 			if _, there := base[path]; there || devMod[with[path].mod] {
 				continue
 			}
-			if isTarget(path) && p.implicit[path] {
+			if p.implicit[path] {
 				continue
 			}
 			res.AddDisagreement(lib.Disagreement{Kind: "spec", Input: it, Go: with[path].raw,
@@ -470,32 +520,45 @@ func evaluate(items []gen.C08Case, f *lib.Flags, res *lib.Result, st *stats, ver
 			ok = false
 			break
 		}
-		// (iii) targets
-		for _, t := range p.order {
+		// (iii) targets: the last incarnation of every targeted path
+		var tpaths []string
+		for path := range p.last {
+			tpaths = append(tpaths, path)
+		}
+		sort.Strings(tpaths)
+		for _, t := range tpaths {
 			st.targets++
-			a := specs[t]
-			b, inBase := base[t]
-			if !inBase {
-				b = implicitRec(t)
-			}
+			key := p.last[t]
+			a := specs[key]
+			b := p.start[key]
 			verdict, kind := "violates", "spec"
-			if len(a.unclaimed) > 0 {
-				// the RFC calls the deviation invalid, the property does not say what happens then:
-				// the effect function is what the model proves the code does
+			if len(unclaimed) > 0 {
+				// the RFC calls some deviation of this case invalid for a reason the property does not
+				// speak about: the effect function is what the model proves the code does
 				verdict, kind = "", "correspondence"
 			}
-			w, there := with[t]
-			if a.removed {
-				for path := range with {
-					if below(path, t) {
+			// removed: by its own not-supported, or because an ancestor was removed
+			gone := a.removed
+			for _, r := range p.removed {
+				if t != r && below(t, r) {
+					gone = true
+				}
+			}
+			if p.emptied[t] || gone {
+				// whatever the base had below a removed node is gone, also when the node itself came back empty
+				for _, path := range wpaths {
+					if below(path, t) && (gone || path != t) {
 						res.AddDisagreement(lib.Disagreement{Kind: kind, Input: it, Go: with[path].raw, Model: "removed",
 							SpecVerdict: verdict, What: "not-supported did not remove " + path, Replay: it})
 						ok = false
 						break
 					}
 				}
+			}
+			if gone {
 				continue
 			}
+			w, there := with[t]
 			if !there {
 				res.AddDisagreement(lib.Disagreement{Kind: kind, Input: it, Go: "absent", Model: a.f,
 					SpecVerdict: verdict, What: "target " + t + " is missing although no not-supported applies", Replay: it})
@@ -555,7 +618,7 @@ func main() {
 		rescorr.ServeChild(nil)
 		return
 	}
-	st := &stats{combos: map[string]bool{}, distinct: lib.NewDistinct()}
+	st := &stats{combos: map[string]bool{}, distinct: lib.NewDistinct(), baseErrClass: map[string]int{}}
 	if f.Replay != "" {
 		raw, err := os.ReadFile(f.Replay)
 		if err != nil {
@@ -626,6 +689,7 @@ func main() {
 	res.Distribution["rfc_invalid_outside_claim_reported_anyway"] = st.unclaimedReported
 	res.Distribution["rfc_invalid_outside_claim_applied(compared with the effect function)"] = st.unclaimedApplied
 	res.Distribution["base_has_errors"] = st.baseErr
+	res.Distribution["base_error_classes"] = st.baseErrClass
 	res.Distribution["outside_model_runs"] = st.outside
 	res.Distribution["go_parse_rejected"] = st.parse
 	res.Distribution["targets_compared_with_spec"] = st.targets
